@@ -236,8 +236,12 @@ fn c11() -> PropSpec {
 
 // ---- C12 -------------------------------------------------------------------------------------
 
-fn check_c12(l: &Ledger, _e: &[(String, String)], _s: &PropSpec) -> Vec<Violation> {
-    oracle_tx::check_c12(l)
+fn check_c12(l: &Ledger, e: &[(String, String)], s: &PropSpec) -> Vec<Violation> {
+    let mut v = oracle_tx::check_c12(l);
+    if v.is_empty() {
+        v.extend(crate::oracle_twin::check_c12_twin(l, e, s));
+    }
+    v
 }
 
 /// non-trivial: a send was attempted while at least one earlier request had finished by a failure path
@@ -557,8 +561,48 @@ fn c13() -> PropSpec {
     }
 }
 
+// ---- C17 -------------------------------------------------------------------------------------
+
+fn check_c17(l: &Ledger, e: &[(String, String)], s: &PropSpec) -> Vec<Violation> {
+    crate::oracle_twin::check_c17(l, e, s)
+}
+
+fn sig_c17(l: &Ledger) -> Vec<u64> {
+    crate::oracle_twin::c17_cases(l).iter().map(|c| hash_of(&(c, l.cfg.is_reliable()))).collect()
+}
+
+fn c17() -> PropSpec {
+    let mut p = Profile::base("rejected-buffers");
+    p.n_inj = (1, 6);
+    p.inj_w = [4, 3, 2, 4, 2, 1, 1, 1, 0, 4];
+    p.p_corrupt = 120;
+    p.p_splice = 30;
+    p.p_srv_integ = 250;
+    p.p_srv_fp = 150;
+    p.p_srv_dup = 100;
+    p.p_dup = 150;
+    p.p_reliable = 200;
+    p.n_app = (1, 6);
+    p.p_srv_lt = 200;
+    PropSpec {
+        id: "C17",
+        tag: 17,
+        level: "exploration",
+        profile: p,
+        opts: RunOpts { probe_late_responses: true, probe_capacity: true, ..Default::default() },
+        check: check_c17,
+        signature: sig_c17,
+        rule: "seeded random plans in which buffers of every rejected kind (undecodable, request class, unknown id, finished id, bad/missing fingerprint, failed authentication to be ignored, refused indication) land at arbitrary positions of otherwise ordinary histories; each run is executed a second time with exactly the rejected deliveries turned into drops and the two abstract histories are compared step by step (twin run); distinct = distinct (rejection kind, credential-state tag and number of outstanding requests at insertion, transport)",
+        quick_runs: 250_000,
+        thorough_runs: 6_000_000,
+        required_probes: &[],
+        extra: None,
+        assumptions: COMMON_ASSUMPTIONS,
+    }
+}
+
 pub fn all() -> Vec<PropSpec> {
-    vec![c05(), c06(), c07(), c08(), c10(), c11(), c12(), c13()]
+    vec![c05(), c06(), c07(), c08(), c10(), c11(), c12(), c13(), c17()]
 }
 
 pub fn find(id: &str) -> Option<PropSpec> {
